@@ -259,7 +259,10 @@ def oracle_C03(inp):
         if not same(p, g) or len(p) != len(x) - 1:
             out.append("%r.parent = %r, get_as(second-to-last) = %r" % (x.uri, p.uri, g.uri))
         back = p / vals[-1]
-        if natural(x) and ":" not in s:
+        if ":" in str(x):
+            pass      # '/' re-reads the concatenated STRING, and a string containing ':' is by syntax a uri ('type:string'):
+                      # a value with ':' only exists in a uri-forced Sid and is outside the '/' clause (premise made visible)
+        elif natural(x) and ":" not in s:
             if not same(back, x):
                 out.append("%r: parent / last = %r" % (x.uri, back.uri))
         elif str(back) != str(x):
@@ -1023,6 +1026,11 @@ def oracle_C11(inp):
             c = list(FindInList(Gs).find(s, as_sid=False))
             if set(c) != set(a):
                 out.append("FindInList %r vs FindInPaths %r for %r over %r" % (sorted(c), sorted(a), s, leaves))
+            # ... whatever the options the list Finder was built with (they are about speed and order, not about the answer)
+            for opts in ({"do_pre_sort": True}, {"do_strip": True}):
+                c2 = list(FindInList(list(Gs), **opts).find(s, as_sid=False))
+                if set(c2) != set(c):
+                    out.append("FindInList(%r) finds %r, FindInList() %r for %r" % (opts, sorted(c2), sorted(c), s))
         if all(uses_paths_finder(u) for u in us):
             try:
                 dd = list(FindInAll().find(s, as_sid=False))
